@@ -465,6 +465,7 @@ for t in packaging_tags.sys_tags():
     ) -> None:
         # We always want to have /-separated paths in the zip file and in RECORD
         rel_path_name = rel_path.as_posix()
+        self._check_not_written(wheel, rel_path_name)
         zinfo = zipfile.ZipInfo(rel_path_name, self._zipfile_date_time)
 
         # Normalize permission bits to either 755 (executable) or 644
@@ -491,6 +492,15 @@ for t in packaging_tags.sys_tags():
 
         self._records.append((rel_path_name, hash_digest, size))
 
+    @staticmethod
+    def _check_not_written(wheel: zipfile.ZipFile, rel_path: str) -> None:
+        # two sources for one archive name (e.g. the same package included from
+        # two directories) would give a duplicate member and two RECORD rows
+        if rel_path in wheel.NameToInfo:
+            raise RuntimeError(
+                f"Several files would be written to {rel_path} in the wheel."
+            )
+
     @contextlib.contextmanager
     def _write_to_zip(
         self, wheel: zipfile.ZipFile, rel_path: str
@@ -498,6 +508,7 @@ for t in packaging_tags.sys_tags():
         sio = StringIO()
         yield sio
 
+        self._check_not_written(wheel, rel_path)
         date_time = self._zipfile_date_time
         zi = zipfile.ZipInfo(rel_path, date_time)
         zi.external_attr = (0o644 & 0xFFFF) << 16  # Unix attributes
